@@ -10,8 +10,8 @@ import RosuModel.Gen.GradualCtor
 For every abstract skill state `S` (hence for the real strain skills): the `i`-th value a
 gradual calculator produces is the one-shot result for `passed_objects = i`, it produces exactly
 `len()` values, and the last one is the full one-shot result.  osu!standard and osu!catch are
-proved outright (osu!mania since the fix /repo 1b784a7), osu!taiko
-has `decide`d counter-witnesses (the statement is false of the code, see known findings).
+proved outright (osu!mania since the fix /repo 1b784a7), osu!taiko since the
+fix of `TaikoGradualDifficulty::{next,nth}`; its final-value clause needs "the last object is a hit" — recorded finding).
 -/
 
 namespace Rosu.Gradual
@@ -212,79 +212,87 @@ example :
       some (Res.some (maniaOneShot unitSkills' objs 2)) := by
   decide
 
-/-! ## osu!taiko — the statement is false of the code -/
+/-! ## osu!taiko
 
+Since `/repo` `fix: taiko gradual difficulty counts the first two objects like every other hit` the
+`next` / value-count / `len` clauses hold for every object list; before it they needed "the first two
+objects are hits and there are at least three objects" (witnesses about the pre-fix machine
+`Old.taikoMachine` below).  The final-value clause still needs "no drum roll / swell after the last
+hit" (recorded finding `taiko-gradual-trailing-nonhit`: a disagreement inside the one-shot path). -/
 
-
-/-- **taiko (partial)**: on a map whose first two objects are hits and that has at least three
-objects (`true :: true :: rest`, `rest ≠ []`), the first `H` calls of `next` (`H` = number of hits)
-return exactly the one-shot results for `passed_objects = 1, …, H`, the next call returns `None`,
-and `len()` announces `H`.  Both hypotheses are necessary: see the witnesses below. -/
-theorem taiko_next_eq_prefix_partial (sk : Skills S) (rest : List Bool) (hne : rest ≠ []) :
-    let objs := true :: true :: rest
-    let H := 2 + hitsIn rest
+/-- **taiko**: for every object list, the first `H` calls of `next` (`H` = number of hits) return
+exactly the one-shot results for `passed_objects = 1, …, H`, the next call returns `None`, and
+`len()` announces `H`. -/
+theorem taiko_next_eq_prefix (sk : Skills S) (objs : List Bool) :
+    let H := hitsIn objs
     ((taikoMachine sk objs).nexts (taikoNew sk objs) H).1 =
       (List.range H).map (fun d => Res.some (taikoOneShot sk objs (d + 1))) ∧
     ((taikoMachine sk objs).next ((taikoMachine sk objs).nexts (taikoNew sk objs) H).2).1 = .none ∧
     (taikoMachine sk objs).len (taikoNew sk objs) = some H := by
-  intro objs H
-  obtain ⟨h1, h2, hc2⟩ := taiko_first_two sk rest hne
-  obtain ⟨hv, hc⟩ := taiko_nexts_spec sk rest (hitsIn rest) _ 2 hc2 (by omega)
-  have hH : H = hitsIn rest + 1 + 1 := by omega
-  have hn1 : (taikoMachine sk objs).next (taikoNew sk objs) =
-      (Res.some (taikoValue sk rest 1), (taikoNext sk objs (taikoNew sk objs)).2) := by
-    show (optToRes (taikoNext sk objs (taikoNew sk objs)).1, _) = _
-    rw [h1]; rfl
-  have hn2 : (taikoMachine sk objs).next (taikoNext sk objs (taikoNew sk objs)).2 =
-      (Res.some (taikoValue sk rest 2), (taikoNext sk objs (taikoNext sk objs (taikoNew sk objs)).2).2) := by
-    show (optToRes (taikoNext sk objs (taikoNext sk objs (taikoNew sk objs)).2).1, _) = _
-    rw [h2]; rfl
-  have hvals : ∀ d, d < H → taikoOneShot sk objs (d + 1) = taikoValue sk rest (d + 1) := fun d hd =>
-    taikoOneShot_regular sk rest (d + 1) (by omega) (by omega)
+  intro H
+  obtain ⟨hv, hc⟩ := taiko_nexts_spec sk objs H (taikoNew sk objs) 0 (taikoNew_canon sk objs) (by omega)
   refine ⟨?_, ?_, ?_⟩
-  · rw [hH]
-    simp only [Machine.nexts, hn1, hn2]
-    rw [hv]
-    rw [List.range_succ_eq_map, List.range_succ_eq_map]
-    simp only [List.map_cons, List.map_map]
-    rw [hvals 0 (by omega), hvals 1 (by omega)]
-    congr 2
+  · rw [hv]
     apply List.map_congr_left
     intro d hd
-    have hdlt : d < hitsIn rest := by simpa using hd
-    simp only [Function.comp]
-    rw [hvals (d + 1 + 1) (by omega)]
-    congr 2
-    omega
-  · rw [hH]
-    simp only [Machine.nexts, hn1, hn2]
-    have hce : 2 + hitsIn rest = 2 + hitsIn rest := rfl
-    have := (taikoNext_spec sk rest _ _ hc).2 rfl
-    show (optToRes (taikoNext sk objs _).1) = _
+    have hdlt : d < H := by simpa using hd
+    simp only [Nat.zero_add]
+    rw [taikoOneShot_general sk objs (d + 1) (by omega) (by omega)]
+  · simp only [Nat.zero_add] at hc
+    have := ((taikoNext_spec sk objs _ H hc).2 rfl).1
+    show optToRes (taikoNext sk objs _).1 = _
     rw [this]; rfl
-  · show csub ((objs.filter id).length) 0 = some H
-    have : (objs.filter id).length = H := by
-      show hitsIn objs = H
-      simp only [objs, hitsIn_cons]; simp; omega
-    rw [this]; rfl
+  · simp [taikoMachine, taikoLen, taikoNew, csub, hitsIn, H]
 
-/-- First object is a hit, second is not: the second gradual value differs from
-`passed_objects(2)` (gradual reports combo 1 where one-shot has already counted the second
-hit and processed a difficulty object). -/
+/-- **taiko, final value**: when the last object is a hit, the last gradual value (the one-shot
+result for `passed_objects = H`) equals the full calculation (`passed_objects` unset = any limit
+`≥ H`).  Without the hypothesis this is false — `taiko_trailing_nonhit_fails` (recorded finding). -/
+theorem taiko_last_eq_full (sk : Skills S) (objs : List Bool) (hlast : objs.getLast? = some true)
+    (big : Nat) (hbig : hitsIn objs ≤ big) :
+    taikoOneShot sk objs (hitsIn objs) = taikoOneShot sk objs big := by
+  have hpos : 1 ≤ hitsIn objs := by
+    have : true ∈ objs := List.mem_of_getLast? hlast
+    unfold hitsIn
+    exact List.length_pos_of_mem (List.mem_filter.mpr ⟨this, rfl⟩)
+  apply taikoOneShot_congr
+  · omega
+  · rcases Nat.lt_or_ge (hitsIn objs) big with h | h
+    · rw [cutLen_last_hit objs hlast, cutLen_of_lt objs big h]
+    · have : big = hitsIn objs := by omega
+      rw [this]
+  · omega
+
+/-! ### The machine before the fix (`Old`): the defect, as `decide`d witnesses -/
+
+/-- Pre-fix: first object a hit, second not — the second gradual value differed from
+`passed_objects(2)` (combo 1 where one-shot has already counted the second hit and processed a
+difficulty object). -/
 theorem taiko_first_nonhit_fails :
     let objs := [true, false, true, true]
-    ((taikoMachine unitSkills' objs).nexts (taikoNew unitSkills' objs) 2).1.getLast? ≠
+    ((Old.taikoMachine unitSkills' objs).nexts (taikoNew unitSkills' objs) 2).1.getLast? ≠
       some (Res.some (taikoOneShot unitSkills' objs 2)) := by
   decide
 
-/-- Maps with two objects announce two values and produce none. -/
+/-- Pre-fix: maps with two objects announced two values and produced none. -/
 theorem taiko_short_map_fails :
     let objs := [true, true]
-    (taikoMachine unitSkills' objs).len (taikoNew unitSkills' objs) = some 2 ∧
-    ((taikoMachine unitSkills' objs).next (taikoNew unitSkills' objs)).1 = .none := by
+    (Old.taikoMachine unitSkills' objs).len (taikoNew unitSkills' objs) = some 2 ∧
+    ((Old.taikoMachine unitSkills' objs).next (taikoNew unitSkills' objs)).1 = .none := by
   decide
 
-/-- A trailing non-hit: the last gradual value is not the full calculation. -/
+/-- The same inputs on the machine as fixed (instances of `taiko_next_eq_prefix`, evaluated). -/
+example :
+    ((taikoMachine unitSkills' [true, false, true, true]).nexts
+        (taikoNew unitSkills' [true, false, true, true]) 3).1 =
+      [1, 2, 3].map (fun i => Res.some (taikoOneShot unitSkills' [true, false, true, true] i)) ∧
+    ((taikoMachine unitSkills' [true, true]).nexts (taikoNew unitSkills' [true, true]) 3).1 =
+      [Res.some (taikoOneShot unitSkills' [true, true] 1), Res.some (taikoOneShot unitSkills' [true, true] 2),
+       Res.none] := by
+  decide
+
+/-- A trailing non-hit (current code, recorded finding `taiko-gradual-trailing-nonhit`): the last
+gradual value is not the full calculation — the unlimited one-shot path also processes the
+difficulty objects of non-hits after the last hit. -/
 theorem taiko_trailing_nonhit_fails :
     let objs := [true, true, true, false]
     ((taikoMachine unitSkills' objs).nexts (taikoNew unitSkills' objs) 3).1.getLast? ≠
@@ -292,13 +300,13 @@ theorem taiko_trailing_nonhit_fails :
     ((taikoMachine unitSkills' objs).nexts (taikoNew unitSkills' objs) 4).1.getLast? = some .none := by
   decide
 
-/-- …while on a regular taiko map (first two objects hits, a hit last) the values do agree:
-sanity instance showing the model is not trivially inconsistent. -/
+/-- …while with a hit last the values do agree (instance of `taiko_last_eq_full`; the map starts
+with a drum roll). -/
 example :
-    let objs := [true, true, false, true, true]
-    ((taikoMachine unitSkills' objs).nexts (taikoNew unitSkills' objs) 4).1 =
-      [1, 2, 3, 4].map (fun i => Res.some (taikoOneShot unitSkills' objs i)) ∧
-    (taikoOneShot unitSkills' objs 4) = (taikoOneShot unitSkills' objs 1000) := by
+    let objs := [false, true, false, true, true]
+    ((taikoMachine unitSkills' objs).nexts (taikoNew unitSkills' objs) 3).1 =
+      [1, 2, 3].map (fun i => Res.some (taikoOneShot unitSkills' objs i)) ∧
+    (taikoOneShot unitSkills' objs 3) = (taikoOneShot unitSkills' objs 1000) := by
   decide
 
 /-! ## The gradual constructors prepare the map like the one-shot calculation (generated)
